@@ -17,7 +17,8 @@ META = {
 
 DEST = ['absent', 'file', 'dir', 'link-file', 'link-dir', 'dangling', 'empty-dir']
 SELECT = ['single', 'other-then-colliding', 'colliding-then-other', 'range', 'same-path-twice-range', 'same-path-twice-list',
-          'single-path-through-link-dotdot']
+          'single-path-through-link-dotdot', 'single-path-through-missing-dir-dotdot']
+NSEL = len(SELECT)
 LAYOUTS = ['home', 'top', 'alt']
 
 
@@ -39,6 +40,10 @@ def scenario(dest, kind, overwrite, select, layout):
         nodes += [W.d(arch + '/2024'), W.l(base + '/cur', arch + '/2024', 705)]
         shown = base + '/cur/../x'
         path = arch + '/x'
+    if SELECT[select] == 'single-path-through-missing-dir-dotdot':
+        # Path=<base>/gone/../x where <base>/gone does not exist: the kernel cannot resolve the spelling (lexists is
+        # False) although <base>/x, which it designates once the parent has been created, does exist
+        shown = base + '/gone/../x'
     if lay == 'top':
         nodes.append(W.d('/v/.Trash', 0o1777))
     nodes += K.trashed(td, 'x', K.quote(pv(shown)), '2020-01-02T00:00:00', K.KINDS[kind], 2000)
@@ -62,7 +67,8 @@ def scenario(dest, kind, overwrite, select, layout):
     world = W.W(mounts=K.MOUNTS, cwd=base, nodes=nodes)
     # listing sorted by date: index 0 = other (01-01), index 1 = x (01-02)
     reply = {'single': '1', 'other-then-colliding': '0,1', 'colliding-then-other': '1,0', 'range': '0-1',
-             'same-path-twice-range': '1-2', 'same-path-twice-list': '2,1', 'single-path-through-link-dotdot': '1'}[SELECT[select]]
+             'same-path-twice-range': '1-2', 'same-path-twice-list': '2,1', 'single-path-through-link-dotdot': '1',
+             'single-path-through-missing-dir-dotdot': '1'}[SELECT[select]]
     args = ['--overwrite'] if overwrite else []
     steps = [{'snap': '/'}, C('restore', args, scen.env(), stdin=[reply], cwd=base), {'snap': '/'}]
     return world, steps, td, path, other, shown
@@ -103,6 +109,9 @@ def _case(dest, kind, overwrite, select, layout):
                         scen.sub(after, td + '/info/x.trashinfo') == scen.sub(before, td + '/info/x.trashinfo'))
         pair_gone = scen.sub(after, td + '/files/x') is None and scen.sub(after, td + '/info/x.trashinfo') is None
         exists = DEST[dest] != 'absent'
+        missing_dir = SELECT[select] == 'single-path-through-missing-dir-dotdot'
+        if missing_dir and not (exists and not overwrite):
+            return rt.ok()  # (whether such a spelling can be restored at all is not C06's business)
         if exists and not overwrite:
             if dst_after != dst_before:
                 return rt.fail('C06:clobbered:' + label, 'destination %r was %r, now %r (exit %r, stderr %r)' % (
@@ -118,6 +127,8 @@ def _case(dest, kind, overwrite, select, layout):
             for p in list(removed) + list(added) + list(changed):
                 if scen.is_under(p, other) or p in (td + '/files/other', td + '/info/other.trashinfo'):
                     continue
+                if missing_dir and p in added and added[p][0] == 'd':
+                    continue  # the missing parent directory may have been created before the refusal
                 return rt.fail('C06:refusal-collateral:' + label, 'refused restore changed %r' % (p,))
             return rt.ok()
         if not exists:
@@ -145,13 +156,13 @@ def _case(dest, kind, overwrite, select, layout):
 def w_main(dest: int, kind: int, overwrite: bool, select: int, layout: int) -> str:
     """
     pre: PARTITION is None or dest == PARTITION
-    pre: 0 <= dest < 7 and 0 <= kind < 6 and 0 <= select < 7 and 0 <= layout < 3
+    pre: 0 <= dest < 7 and 0 <= kind < 6 and 0 <= select < NSEL and 0 <= layout < 3
     post: _ == ''
     """
-    return _case(rt.sel(dest, 7), rt.sel(kind, 6), rt.selb(overwrite), rt.sel(select, 7), rt.sel(layout, 3))
+    return _case(rt.sel(dest, 7), rt.sel(kind, 6), rt.selb(overwrite), rt.sel(select, NSEL), rt.sel(layout, 3))
 
 
 def obligations(tier):
     return [CH('W_dest_kind_overwrite_select_layout', MOD, 'w_main', timeout=900, partitions=list(range(7)),
                engine='W', regime='selector', encodes=K.RESTORE_FUNCS, stubs=K.STUBS,
-               bounds='7 destination kinds x 6 entry kinds x overwrite x 7 selections (incl. two generations of the same path in one selection, and a Path spelled through a symlinked directory and dot-dot) x 3 layouts')]
+               bounds='7 destination kinds x 6 entry kinds x overwrite x 8 selections (incl. a Path through a missing directory and dot-dot, two generations of the same path in one selection, and a Path spelled through a symlinked directory and dot-dot) x 3 layouts')]
